@@ -692,13 +692,15 @@ theorem mkRun_isRun : ∀ (sched : List (Int × Block)) (h : Host) (T : Int) (st
 
 /-! ### from the hosts to the link trace -/
 
-/-- every host's part of the link trace `tr` — its sends (instant and items), the `reg`s and the `unreg`s of its services —
-is that of a disciplined timed run of the C08 host machine -/
+/-- every host's part of the link trace `tr` that the C08 host machine owns — its sends **that carry a pointer record** (instant and
+items; the questions a host sends — browser queries, probes — are the browser scheduler's and the registration's, not this
+machine's), the `reg`s and the `unreg`s of its services — is that of a disciplined timed run of the machine -/
 def GeneratedK6 (tr : Link.Trace) : Prop :=
   ∀ hid : Nat, ∃ (N : Naming) (steps : List Step) (T0 : Int),
     N.host = hid ∧ Function.Injective N.tyId ∧ Function.Injective N.svcId ∧
     IsRun lower Host.init T0 steps ∧ (∀ st ∈ steps, Disc lower st) ∧ Spaced lower N [] steps ∧
-    (∀ sd ∈ Link.sends tr, sd.h = hid → ∃ sd' ∈ Link.sends (events lower N steps), sd'.t = sd.t ∧ sd'.items = sd.items) ∧
+    (∀ sd ∈ Link.sends tr, sd.h = hid → Link.ptrSvcs sd.items ≠ [] →
+      ∃ sd' ∈ Link.sends (events lower N steps), sd'.t = sd.t ∧ sd'.items = sd.items) ∧
     (∀ x ∈ Link.regs (events lower N steps), x ∈ Link.regs tr) ∧
     (∀ x ∈ Link.unregs tr, x.2.owner = hid → x ∈ Link.unregs (events lower N steps))
 
@@ -713,7 +715,7 @@ theorem K6_of_generated (tr : Link.Trace) (hg : GeneratedK6 lower tr) : Link.K6 
   | false => rfl
   | true =>
     obtain ⟨N, steps, T0, hN, hty, hsv, hrun, hd, hsp, hsends, hregs, hunregs⟩ := hg sd.h
-    obtain ⟨sd', hsd', ht, hit⟩ := hsends sd hsd rfl
+    obtain ⟨sd', hsd', ht, hit⟩ := hsends sd hsd rfl (List.ne_nil_of_mem hs)
     have hk := K6_of_run lower N hty hsv steps T0 hrun hd hsp
     have h1 := List.all_eq_true.mp (List.all_eq_true.mp hk sd' hsd') s (by rw [hit]; exact hs)
     rw [hit, hpos] at h1
